@@ -30,9 +30,10 @@ def main():
     prop = args.prop.upper()
     try:
         mod = importlib.import_module("checks." + prop.lower())
-    except ImportError:
+    except Exception:
+        # also a syntax error in a check module: a harness failure is never a verdict
         traceback.print_exc()
-        print("no check for", prop)
+        print("HARNESS FAILURE (inconclusive): cannot load the check for", prop)
         return vcommon.EXIT_INCONCLUSIVE
     chk = vcommon.Check(prop, args.tier, getattr(mod, "LEVEL", "exploration"))
     try:
